@@ -111,8 +111,54 @@ fn arm(a: &[G], salt: usize) -> String {
     }
 }
 
+thread_local! {
+    /// alternative clause forms (`fngoal`, goal-valued Rust expressions) for the same goals
+    static ALT_FORMS: std::cell::Cell<bool> = std::cell::Cell::new(false);
+    static ALT_COUNTER: std::cell::Cell<usize> = std::cell::Cell::new(0);
+}
+
+fn alt_on() -> bool {
+    ALT_FORMS.with(|a| a.get())
+}
+
+fn alt_next() -> usize {
+    ALT_COUNTER.with(|c| {
+        let v = c.get();
+        c.set(v + 1);
+        v
+    })
+}
+
+fn without_alt<R>(f: impl FnOnce() -> R) -> R {
+    let prev = ALT_FORMS.with(|a| a.replace(false));
+    let r = f();
+    ALT_FORMS.with(|a| a.set(prev));
+    r
+}
+
 pub fn clause(g: &G, salt: usize) -> String {
     match g {
+        // the same goals written as an `fngoal` clause or as a Rust expression that evaluates to
+        // a goal (both are clause forms of the grammar)
+        G::Succeed if alt_on() => match alt_next() % 3 {
+            0 => "fngoal |_engine, state| { ::proto_vulcan::stream::Stream::unit(Box::new(state)) }".into(),
+            1 => "{ let g: Goal<DU, DE> = Goal::succeed(); g }".into(),
+            _ => "true".into(),
+        },
+        G::Fail if alt_on() => match alt_next() % 3 {
+            0 => "fngoal |_engine, _state| { ::proto_vulcan::stream::Stream::empty() }".into(),
+            1 => "prelude_fail()".into(),
+            _ => "false".into(),
+        },
+        G::Eq(T::V(v), T::I(k)) if alt_on() && *k >= 0 => match alt_next() % 4 {
+            0 => format!("crate::prelude::eq_int({}.clone(), {})", var_name(*v), k),
+            1 => format!(
+                "{{ let captured = {}.clone(); let g: Goal<DU, DE> = proto_vulcan!(fngoal move |_engine, state| {{ crate::prelude::unify_int(state, &captured, {}) }}); g }}",
+                var_name(*v),
+                k
+            ),
+            _ => format!("{} == {}", var_name(*v), k),
+        },
         G::Succeed => "true".into(),
         G::Fail => "false".into(),
         G::Eq(a, b) => format!("{} == {}", term(a, true), term(b, true)),
@@ -126,7 +172,8 @@ pub fn clause(g: &G, salt: usize) -> String {
         G::Condu(arms) => format!("condu {{ {} }}", arms.iter().map(|a| format!("[{}]", clauses(a, salt))).collect::<Vec<_>>().join(", ")),
         G::Onceo(gs) => format!("onceo {{ {} }}", clauses(gs, salt)),
         // inside dfs the typed-by-context `cond` is the disjunction operator (`conde` is BFS-only)
-        G::Dfs(gs) => format!("dfs {{ {} }}", clauses(gs, salt).replace("conde {", "cond {")),
+        // (alternative forms are typed `Goal`: not inside the depth-first typing)
+        G::Dfs(gs) => format!("dfs {{ {} }}", without_alt(|| clauses(gs, salt)).replace("conde {", "cond {")),
         G::Match(kind, t, arms) => {
             let mut s = format!("{} {} {{ ", kind.name(), term(t, false));
             for (pats, body) in arms {
@@ -168,7 +215,7 @@ pub fn clause(g: &G, salt: usize) -> String {
             clauses(body, salt)
         ),
         G::ForList(x, coll, body) => format!("for {} in &::proto_vulcan::lterm!({}) {{ {} }}", var_name(*x), term(&T::list(coll.clone()), false), clauses(body, salt)),
-        G::Project(vs, gs) => format!("project |{}| {{ {} }}", vs.iter().map(|v| var_name(*v)).collect::<Vec<_>>().join(", "), clauses(gs, salt)),
+        G::Project(vs, gs) => format!("project |{}| {{ {} }}", vs.iter().map(|v| var_name(*v)).collect::<Vec<_>>().join(", "), without_alt(|| clauses(gs, salt))),
         other => panic!("no surface form for {}", other),
     }
 }
@@ -620,6 +667,8 @@ pub fn generate(id: &str, quick: bool, dir: &str) -> std::io::Result<usize> {
             let mut f = String::new();
             let nested = i % 3 == 1;
             let prev = NESTED_TAILS.with(|n| n.replace(nested));
+            ALT_FORMS.with(|a| a.set(id == "C14" && i % 4 == 2));
+            ALT_COUNTER.with(|c| c.set(i / 4));
             let names: Vec<String> = (0..c.program.nq).map(var_name).collect();
             if c.as_query {
                 writeln!(f, "pub fn case_{}(max: usize) -> Vec<Vec<LResult<DU, DE>>> {{", i).unwrap();
@@ -638,6 +687,7 @@ pub fn generate(id: &str, quick: bool, dir: &str) -> std::io::Result<usize> {
                 writeln!(f, "}}").unwrap();
             }
             NESTED_TAILS.with(|n| n.set(prev));
+            ALT_FORMS.with(|a| a.set(false));
             f.push('\n');
             line += f.lines().count();
             writeln!(index, "{}\t{}\t{}\t{}", m, start, line - 1, i).unwrap();
